@@ -26,4 +26,7 @@ def main(selftest=False):
     except Exception as e:  # noqa
         print("FAIL import:", e)
         bad += 1
+    if selftest and not bad:
+        from harness import selftest as st
+        bad += st.main()
     return 1 if bad else 0
